@@ -168,6 +168,22 @@ impl VisitedSet for ShmTable {
     }
 }
 
+/// One step of a *guided* execution: the schedule follows a trace of the abstract scheduler model
+/// (`absmodel`) instead of a choice list. `Scan`: the main thread runs from the top of its loop until it
+/// blocks in `recv` (the jobs it launches are compared with the model's). `Finish(j)`: tasks are started
+/// (each pops the front of the real run queue and executes it) until one holds job `j`, which then runs
+/// through its counter decrements and stops before its `send`. `Batch(js)`: those jobs send their
+/// completions in this order and the main thread receives and handles exactly this batch. `Exec(j)`:
+/// tasks are started until `j` has been executed (used after a model counterexample: the job the model
+/// says can launch too early really runs).
+#[derive(Debug, Clone, PartialEq, serde::Serialize, serde::Deserialize)]
+pub enum Guide {
+    Scan(Vec<String>),
+    Finish(String),
+    Batch(Vec<String>),
+    Exec(String),
+}
+
 #[derive(Clone)]
 pub struct RunCfg {
     /// pool size: at most k tasks between TaskStart and TaskEnd
@@ -218,6 +234,13 @@ struct Inner {
     divergence: Option<String>,
     record: bool,
     log: Vec<LogEv>,
+    guided: bool,
+    guide: Vec<Guide>,
+    gpos: usize,
+    gphase: bool,
+    gmark: usize,
+    guide_notes: Vec<String>,
+    guide_steps_followed: usize,
 }
 
 struct Shared {
@@ -279,6 +302,135 @@ impl Inner {
         sh.cv.notify_one();
     }
 
+    fn actor_of(&self, job: &str) -> Option<usize> {
+        self.actors.iter().enumerate().skip(1).find(|(_, a)| a.job.as_deref() == Some(job)).map(|(i, _)| i)
+    }
+
+    fn next_unstarted(&self) -> Option<usize> {
+        self.actors
+            .iter()
+            .enumerate()
+            .skip(1)
+            .find(|(_, a)| !a.done && !a.started && matches!(a.next, Some(COp::User(Op::TaskStart))))
+            .map(|(i, _)| i)
+    }
+
+    fn guide_fail(&mut self, what: String) -> Option<usize> {
+        self.divergence = Some(format!("guided replay: step {} ({:?}): {what}", self.gpos, self.guide.get(self.gpos)));
+        self.abort = true;
+        None
+    }
+
+    /// Guided mode: the actor the current step of the guide needs next; None once the guide is exhausted
+    /// (the execution then finishes on the default schedule) or when it cannot be followed (divergence).
+    fn guide_pick(&mut self) -> Option<usize> {
+        loop {
+            let Some(step) = self.guide.get(self.gpos).cloned() else {
+                self.fast_forward = true;
+                self.branchable = self.points.len();
+                return None;
+            };
+            let main_next = self.actors[0].next.clone();
+            let main_done = self.actors[0].done;
+            match step {
+                Guide::Scan(expected) => {
+                    let at_rest = main_done || matches!(main_next, Some(COp::Join) | Some(COp::User(Op::RecvBlocking(_))));
+                    if !self.gphase {
+                        if !matches!(main_next, Some(COp::User(Op::LoopHead(_)))) {
+                            return self.guide_fail(format!("the main thread is not at the top of its loop ({main_next:?})"));
+                        }
+                        self.gphase = true;
+                        self.gmark = self.launch_order.len();
+                        return Some(0);
+                    }
+                    if at_rest {
+                        let mut got: Vec<String> = self.launch_order[self.gmark..].to_vec();
+                        let mut want = expected.clone();
+                        got.sort();
+                        want.sort();
+                        if got != want {
+                            self.guide_notes.push(format!("scan {}: the implementation launched {got:?}, the model {want:?}", self.gpos));
+                        }
+                        self.gphase = false;
+                        self.gpos += 1;
+                        self.guide_steps_followed += 1;
+                        continue;
+                    }
+                    return Some(0);
+                }
+                Guide::Finish(job) | Guide::Exec(job) => {
+                    let exec_only = matches!(self.guide[self.gpos], Guide::Exec(_));
+                    if let Some(a) = self.actor_of(&job) {
+                        let act = &self.actors[a];
+                        if exec_only || act.done || act.sent || matches!(act.next, Some(COp::User(Op::Send(_))) | Some(COp::User(Op::TaskEnd))) {
+                            self.gpos += 1;
+                            self.guide_steps_followed += 1;
+                            continue;
+                        }
+                        if matches!(act.next, Some(COp::User(Op::Dec(_)))) {
+                            return Some(a);
+                        }
+                        let n = act.next.clone();
+                        return self.guide_fail(format!("the task of {job} is at {n:?}"));
+                    }
+                    if !self.queue.iter().any(|j| *j == job) {
+                        if exec_only {
+                            self.guide_notes.push(format!("exec {}: {job} was not launched", self.gpos));
+                            self.gpos += 1;
+                            continue;
+                        }
+                        return self.guide_fail(format!("{job} is neither running nor in the run queue"));
+                    }
+                    match self.next_unstarted() {
+                        Some(t) => return Some(t),
+                        None => return self.guide_fail(format!("{job} is queued but no task is left to start")),
+                    }
+                }
+                Guide::Batch(jobs) => {
+                    if !self.gphase {
+                        // phase 1: the completions are sent in the order of the batch
+                        let mut pending = None;
+                        for j in &jobs {
+                            let Some(a) = self.actor_of(j) else {
+                                return self.guide_fail(format!("{j} has no task"));
+                            };
+                            if !self.actors[a].sent && !self.actors[a].done {
+                                pending = Some(a);
+                                break;
+                            }
+                        }
+                        if let Some(a) = pending {
+                            if matches!(self.actors[a].next, Some(COp::User(Op::Send(_))) | Some(COp::User(Op::Dec(_)))) {
+                                return Some(a);
+                            }
+                            let n = self.actors[a].next.clone();
+                            return self.guide_fail(format!("task {a} is at {n:?}, not at its send"));
+                        }
+                        if !matches!(main_next, Some(COp::User(Op::RecvBlocking(_)))) {
+                            return self.guide_fail(format!("the main thread is not blocked in recv ({main_next:?})"));
+                        }
+                        self.gphase = true;
+                        self.gmark = self.obs.len();
+                        return Some(0);
+                    }
+                    // phase 2: the main thread drains the channel and handles the batch
+                    if main_done || matches!(main_next, Some(COp::Join) | Some(COp::User(Op::LoopHead(_)))) {
+                        let handled: Vec<String> =
+                            self.obs[self.gmark..].iter().filter_map(|o| o.strip_prefix("H ").map(|x| x.to_string())).collect();
+                        if handled != jobs {
+                            self.guide_notes.push(format!("batch {}: the implementation handled {handled:?}, the model {jobs:?}", self.gpos));
+                        }
+                        self.gphase = false;
+                        self.gpos += 1;
+                        self.guide_steps_followed += 1;
+                        continue;
+                    }
+                    return Some(0);
+                }
+            }
+        }
+    }
+
     /// Called by whoever just released the baton (current == None). Picks the next actor.
     fn sched(&mut self, sh: &Shared) {
         debug_assert!(self.current.is_none());
@@ -316,7 +468,27 @@ impl Inner {
             self.wake_all(sh);
             return;
         }
-        let choice = if self.fast_forward {
+        let guided_pick = if self.guided && !self.fast_forward { self.guide_pick() } else { None };
+        if self.abort {
+            self.wake_all(sh);
+            return;
+        }
+        let choice = if let Some(who) = guided_pick {
+            match en.iter().position(|e| *e == who) {
+                Some(c) => c,
+                None => {
+                    self.divergence = Some(format!(
+                        "guided replay: step {} ({:?}) needs actor {who} ({:?}) which is not enabled",
+                        self.gpos,
+                        self.guide.get(self.gpos),
+                        self.actors[who].next
+                    ));
+                    self.abort = true;
+                    self.wake_all(sh);
+                    return;
+                }
+            }
+        } else if self.fast_forward {
             0
         } else if self.step < self.prefix.len() {
             let c = self.prefix[self.step];
@@ -355,8 +527,8 @@ impl Inner {
         if !self.fast_forward {
             self.points.push((en.len(), choice));
             self.branchable = self.points.len();
-            self.used += choice;
-            for d in en.iter().take(choice) {
+            self.used += if self.guided { 0 } else { choice };
+            for d in en.iter().take(if self.guided { 0 } else { choice }) {
                 if !self.demoted.contains(d) {
                     self.demoted.push(*d);
                 }
@@ -710,6 +882,11 @@ pub struct ExecResult {
     pub conformed: bool,
     #[serde(default)]
     pub conform_error: Option<String>,
+    /// guided executions: steps of the guide followed, and what differed from the model on the way
+    #[serde(default)]
+    pub guide_steps_followed: usize,
+    #[serde(default)]
+    pub guide_notes: Vec<String>,
 }
 
 /// The job: runs the compiler on the calling thread (a handle is installed) and describes the result.
@@ -724,9 +901,21 @@ pub fn run_recorded(job: &Job, cfg: &RunCfg, prefix: &[usize]) -> ExecResult {
     run_inner(job, cfg, prefix, None, true)
 }
 
+/// One execution that follows a model trace (see `Guide`), recorded; when the guide is exhausted the
+/// execution finishes on the default schedule.
+pub fn run_guided(job: &Job, cfg: &RunCfg, guide: &[Guide]) -> ExecResult {
+    run_inner2(job, cfg, &[], None, true, Some(guide))
+}
+
 fn run_inner(job: &Job, cfg: &RunCfg, prefix: &[usize], visited: Option<&Visited>, record: bool) -> ExecResult {
+    run_inner2(job, cfg, prefix, visited, record, None)
+}
+
+fn run_inner2(job: &Job, cfg: &RunCfg, prefix: &[usize], visited: Option<&Visited>, record: bool, guide: Option<&[Guide]>) -> ExecResult {
     let sh = Arc::new(Shared {
         m: Mutex::new(Inner {
+            guided: guide.is_some(),
+            guide: guide.map(|g| g.to_vec()).unwrap_or_default(),
             record,
             k: cfg.k,
             main_last: cfg.main_last,
@@ -843,6 +1032,8 @@ fn run_inner(job: &Job, cfg: &RunCfg, prefix: &[usize], visited: Option<&Visited
         log: g.log.clone(),
         conformed: false,
         conform_error: None,
+        guide_steps_followed: g.guide_steps_followed,
+        guide_notes: g.guide_notes.clone(),
     }
 }
 
@@ -1116,11 +1307,132 @@ pub fn worker_env() -> Option<String> {
     std::env::var("VERIF_VRT_WORKER").ok()
 }
 
+/// Guided executions (model traces replayed on the implementation), one worker process per core.
+/// Every execution is recorded and replayed against the model extracted from the worker's own reference
+/// run (`absmodel::conform`), like the executions of the exploration. Results in the order of `guides`.
+pub fn guided_mp(worker_arg: &str, guides: &[Vec<Guide>], threads: usize) -> Vec<ExecResult> {
+    use std::io::{BufRead, BufReader, Write};
+    use std::process::{Command, Stdio};
+    let cores = allowed_cores();
+    let nproc = threads.max(1).min(cores.len().max(1)).min(guides.len().max(1));
+    let next = std::sync::atomic::AtomicUsize::new(0);
+    let results: Mutex<Vec<Option<ExecResult>>> = Mutex::new(vec![None; guides.len()]);
+    std::thread::scope(|sc| {
+        for t in 0..nproc {
+            let core = cores[t % cores.len()];
+            let next = &next;
+            let results = &results;
+            sc.spawn(move || {
+                let spawn = || {
+                    let mut cmd = Command::new("/proc/self/exe");
+                    unsafe {
+                        use std::os::unix::process::CommandExt;
+                        cmd.pre_exec(|| {
+                            libc::prctl(libc::PR_SET_PDEATHSIG, libc::SIGKILL);
+                            Ok(())
+                        });
+                    }
+                    let mut proc = cmd
+                        .env("VERIF_VRT_WORKER", worker_arg)
+                        .env("VERIF_VRT_GUIDED", "1")
+                        .env("VERIF_VRT_CORE", core.to_string())
+                        .stdin(Stdio::piped())
+                        .stdout(Stdio::piped())
+                        .stderr(Stdio::null())
+                        .spawn()
+                        .expect("spawn vrt guided worker");
+                    let stdin = proc.stdin.take().unwrap();
+                    let stdout = BufReader::new(proc.stdout.take().unwrap());
+                    (proc, stdin, stdout)
+                };
+                let mut child = None;
+                loop {
+                    let i = next.fetch_add(1, std::sync::atomic::Ordering::Relaxed);
+                    if i >= guides.len() {
+                        break;
+                    }
+                    let (proc, stdin, stdout) = child.get_or_insert_with(spawn);
+                    let line = serde_json::to_string(&guides[i]).unwrap_or_default();
+                    let sent = writeln!(stdin, "G {line}").is_ok() && stdin.flush().is_ok();
+                    let mut reply = String::new();
+                    if sent {
+                        loop {
+                            reply.clear();
+                            match stdout.read_line(&mut reply) {
+                                Ok(0) | Err(_) => {
+                                    reply.clear();
+                                    break;
+                                }
+                                Ok(_) if reply.starts_with("VRT ") => break,
+                                Ok(_) => {}
+                            }
+                        }
+                    }
+                    let r = reply.strip_prefix("VRT ").and_then(|j| serde_json::from_str::<ExecResult>(j).ok()).unwrap_or_else(|| {
+                        let _ = proc.kill();
+                        let _ = proc.wait();
+                        ExecResult { outcome: Some("crash:worker process died during the guided execution".into()), ..Default::default() }
+                    });
+                    if r.outcome.as_deref().is_some_and(|o| o.starts_with("crash:")) {
+                        child = None;
+                    }
+                    results.lock().unwrap()[i] = Some(r);
+                }
+                if let Some((mut proc, stdin, _)) = child {
+                    drop(stdin);
+                    let _ = proc.wait();
+                }
+            });
+        }
+    });
+    results.into_inner().unwrap().into_iter().map(|r| r.unwrap_or_default()).collect()
+}
+
+fn guided_worker_loop(job: &Job) -> ! {
+    use std::io::{BufRead, Write};
+    let run = RunCfg { k: 64, main_last: false, dmax: 0, harvest: false };
+    let reference = run_recorded(job, &run, &[]);
+    let instance = absmodel::extract(&reference.log);
+    let stdin = std::io::stdin();
+    let mut line = String::new();
+    loop {
+        line.clear();
+        match stdin.lock().read_line(&mut line) {
+            Ok(0) | Err(_) => std::process::exit(0),
+            Ok(_) => {}
+        }
+        let Some(rest) = line.trim_end().strip_prefix("G ") else {
+            continue;
+        };
+        let guide: Vec<Guide> = serde_json::from_str(rest).unwrap_or_default();
+        let mut r = run_guided(job, &run, &guide);
+        let log = std::mem::take(&mut r.log);
+        match &instance {
+            Err(e) => r.conform_error = Some(format!("extraction failed: {e}")),
+            Ok(inst) => {
+                if r.deadlock.is_none() && r.divergence.is_none() && r.outcome.as_deref().is_some_and(|o| o.starts_with("ok:")) {
+                    r.conformed = true;
+                    if let Err(e) = absmodel::conform(inst, &log, true) {
+                        r.conform_error = Some(e);
+                    }
+                }
+            }
+        }
+        let out = std::io::stdout();
+        let mut o = out.lock();
+        let _ = writeln!(o, "VRT {}", serde_json::to_string(&r).unwrap_or_default());
+        let _ = o.flush();
+    }
+}
+
 /// Worker process main loop: reads prefixes, runs them, prints results. Never returns.
 pub fn worker_loop(job: &Job) -> ! {
     use std::io::{BufRead, Write};
     if let Some(core) = std::env::var("VERIF_VRT_CORE").ok().and_then(|s| s.parse().ok()) {
         pin_to_core(core);
+    }
+    if std::env::var("VERIF_VRT_GUIDED").is_ok() {
+        guided_worker_loop(job);
     }
     let run = {
         let v: Vec<usize> = std::env::var("VERIF_VRT_RUN")
